@@ -7,6 +7,7 @@ def build_registry():
     sort_c.register(reg)
     conversion_c.register(reg)
     conversion_c.register_to_stable(reg)
+    conversion_c.register_streaming(reg)
     sort_c.register_sort_loops(reg)
     sort_c.register_process_alignment(reg)
     view_c.register(reg)
@@ -19,4 +20,5 @@ def build_registry():
     gaf_c.register(reg)
     gaf_c.register_printer(reg)
     realign_c.register(reg)
+    realign_c.register_wfa(reg)
     return reg
